@@ -1182,7 +1182,7 @@ def e2e(ctx, objdir):
     progs = e2e_progs(ctx, objdir)
     results = []
     todo = []          # every option variant at least once per run, in a seed-dependent order
-    for rnd in range(ctx.n(3, 16)):
+    for rnd in range(ctx.n(3, 12)):
         k = [2, 3, 4, 1, 4, 2, 3, 1][rnd % 8]
         runs = []
         for i in range(k):
@@ -1395,14 +1395,14 @@ def run(ctx):
     objdir, exe = setup(ctx)
     rng = ctx.rng
     # 1. small in-process cases, full model comparison
-    nsmall = ctx.n(120, 3000)
+    nsmall = ctx.n(100, 2000)
     cases = [gen_reset_case(rng, i) if i % 10 == 7 else gen_overlap_case(rng, i) if i % 10 == 3 else
              gen_case(rng, i, reuse=(i % 9 == 4)) for i in range(nsmall)]
     per = 200
     for off in range(0, len(cases), per):
         run_small(ctx, exe, cases[off:off + per], "small%d" % (off // per))
     # 2. big payloads
-    run_big(ctx, exe, [gen_case(rng, i, big=True) for i in range(ctx.n(6, 80))])
+    run_big(ctx, exe, [gen_case(rng, i, big=True) for i in range(ctx.n(6, 50))])
     # 3. malformed streams (model and implementation die on the same streams)
     raws = []
     for _ in range(ctx.n(1, 6)):
